@@ -113,6 +113,7 @@ fn fenced_with(clients: &mut [Client], sender: usize, req: &str, op_scrapes: usi
             if !conn.send_text(req, 15000) { dead = true; }
             let mut want = 1 + if i == sender { op_scrapes } else { 0 };
             let t0 = std::time::Instant::now();
+            let patience = crate::net::patience();
             while !dead && want > 0 {
                 match conn.recv_text(Duration::from_millis(50)) {
                     Ok(Some(t)) => {
@@ -120,7 +121,7 @@ fn fenced_with(clients: &mut [Client], sender: usize, req: &str, op_scrapes: usi
                         if m.starts_with("S:") { want -= 1; if want == 0 { break; } }
                         v.push(m);
                     }
-                    Ok(None) => { if t0.elapsed() > Duration::from_secs(6) { dead = true; } }
+                    Ok(None) => { if t0.elapsed() > patience { crate::net::note_timeout(); dead = true; } }
                     Err(_) => { dead = true; }
                 }
             }
@@ -182,17 +183,43 @@ pub fn run(out: &mut impl Write, seed: u64, cases: usize, _replay: &str, burst: 
                 for h in &bh { conn.send_text(&announce_json(h, &pid, "started", Some(5), &None, &None), 15000); }
                 clients[ci].conn.take().unwrap().close(false);
                 writeln!(out, "wburst 4 0 {} {} {}", ci, bh.iter().map(|h| hex(h)).collect::<Vec<_>>().join(","), hex(&pid)).unwrap();
-                std::thread::sleep(Duration::from_millis(1200));
-                let _ = collect(&mut clients, Duration::from_millis(100), Duration::from_millis(500));
-                // somebody else looks at those torrents (in chunks: one reply each)
+                // somebody else looks at those torrents (in chunks: one reply each), again and again until nothing
+                // of the dropped connection is left or patience runs out: the tracker needs time for the burst and
+                // the close notice, more on a loaded machine; a tracker that forgets nothing never gets there
                 let live: Vec<usize> = (0..clients.len()).filter(|i| clients[*i].conn.is_some()).collect();
                 let si = live[0];
-                for chunk in bh.chunks(20) {
-                    let req = format!(r#"{{"action":"scrape","info_hash":[{}]}}"#, chunk.iter().map(js20).collect::<Vec<_>>().join(","));
-                    clients[si].conn.as_mut().unwrap().send_text(&req, 15000);
-                    let got = collect(&mut clients, Duration::from_millis(250), Duration::from_secs(3));
-                    writeln!(out, "wscr 4 0 {} {} => {}", si, chunk.iter().map(|h| hex(h)).collect::<Vec<_>>().join(","), if got.is_empty() { "-".to_string() } else { got.join(" ") }).unwrap();
-                }
+                let t0 = std::time::Instant::now();
+                let patience = crate::net::patience();
+                std::thread::sleep(Duration::from_millis(300));
+                let _ = collect(&mut clients, Duration::from_millis(100), Duration::from_millis(500));
+                let lines = loop {
+                    let mut lines = Vec::new();
+                    let mut clean = true;
+                    for chunk in bh.chunks(20) {
+                        let req = format!(r#"{{"action":"scrape","info_hash":[{}]}}"#, chunk.iter().map(js20).collect::<Vec<_>>().join(","));
+                        let mut got: Vec<String> = Vec::new();
+                        if let Some(conn) = clients[si].conn.as_mut() {
+                            conn.send_text(&req, 15000);
+                            let t1 = std::time::Instant::now();
+                            while t1.elapsed() < patience {
+                                match conn.recv_text(Duration::from_millis(50)) {
+                                    Ok(Some(t)) => { let m = msg_text(si, &t); let is_s = m.starts_with("S:"); got.push(m); if is_s { break; } }
+                                    Ok(None) => {}
+                                    Err(_) => break,
+                                }
+                            }
+                        }
+                        got.sort();
+                        for m in got.iter().filter(|m| m.starts_with("S:")) {
+                            let files = m.splitn(3, ':').nth(2).unwrap_or("-");
+                            if files != "-" && files.split(',').any(|e| !e.ends_with("=0:0")) { clean = false; }
+                        }
+                        lines.push(format!("wscr 4 0 {} {} => {}", si, chunk.iter().map(|h| hex(h)).collect::<Vec<_>>().join(","), if got.is_empty() { "-".to_string() } else { got.join(" ") }));
+                    }
+                    if clean || t0.elapsed() > patience { if !clean { crate::net::note_timeout(); } break lines; }
+                    std::thread::sleep(Duration::from_millis(300));
+                };
+                for l in lines { writeln!(out, "{}", l).unwrap(); }
                 continue;
             }
             if k < 70 {
